@@ -768,8 +768,9 @@ def terms_are_like(
     if len(one.variables) != len(two.variables):
         return False
 
-    invalid = len([False for v in one.variables if v not in two.variables]) > 0
-    if invalid:
+    # NOTE: compare the variables as multisets, so that "x * y" and "x * x" are
+    #       unlike no matter which one is given first
+    if sorted(one.variables) != sorted(two.variables):
         return False
 
     # Also, the exponents must match
